@@ -179,7 +179,7 @@ def l2k_recipe(draw, tier="quick"):
 
 def l2k_exhaustive(tier):
     """All bodies of <= 2 ops from {addi, muli, subi} over 3 arguments at one width, any wiring, any yielded value
-    (quick: i8; thorough: all four widths, plus all 3-op bodies at i8)."""
+    (quick: i8; thorough: all four widths, plus all 3-op bodies at i8 that yield their last op)."""
     plan = [(8, 2)] if tier != "thorough" else [(8, 3), (16, 2), (32, 2), (64, 2)]
     for w, maxops in plan:
         for nops in range(1, maxops + 1):
@@ -189,7 +189,7 @@ def l2k_exhaustive(tier):
                 spaces.append([(k, a, b) for k in BIN for a in range(nv) for b in range(nv)])
             for combo in itertools.product(*spaces):
                 ops = [[k, [a, b], ty(w)] for k, a, b in combo]
-                for y in range(3 + nops):
+                for y in (range(3 + nops) if nops < 3 else [2 + nops]):
                     yield dict(args=[ty(w)] * 3, ops=ops, **{"yield": y}, vecs=[], vseed=nops * 1000 + y, mode="exhaustive")
 
 
